@@ -21,7 +21,8 @@ CONSTANTS Mode, MaxLen
 
 \* ("alias": the per-path cache of the deployed account a symbolic address was resolved to)
 \*  "cfg": the configuration in force (the --loop bound): per test, from the layers below the function annotation)
-Keys == {"s0", "t0", "bal", "code", "time", "s1", "alias", "cfg"}
+\*  "subst": what a path has learnt about a post-setUp symbol (symbol == constant), used to concretise it later on
+Keys == {"s0", "t0", "bal", "code", "time", "s1", "alias", "cfg", "subst"}
 Setup == [k \in Keys |-> CASE k = "s0" -> 7 [] k = "s1" -> 1 [] k = "time" -> 1 [] k = "cfg" -> 2 [] OTHER -> 0]
 
 \* the concrete test functions of harness: checks/c20.py builds one bytecode body per entry
@@ -43,6 +44,10 @@ Tests == [
     \* annotated carries `@custom:halmos --loop 4`; loopy passes only under the contract's own bound (--loop 2)
     annotated      |-> [writes |-> [cfg |-> 4],   expects |-> << >>],
     loopy          |-> [writes |-> << >>,          expects |-> [cfg |-> 2]],
+    \* eq_a branches on `sym == 64`; ret_b returns `sym` bytes of memory: not executable symbolically (ERROR) unless the
+    \* symbol had been pinned to a constant - by ret_b itself never
+    eq_a           |-> [writes |-> [subst |-> 1], expects |-> << >>],
+    ret_b          |-> [writes |-> << >>,          expects |-> [subst |-> 1]],
     inv_a          |-> [writes |-> << >>,          expects |-> [s1 |-> 1]],
     inv_b          |-> [writes |-> << >>,          expects |-> [s1 |-> 1, s0 |-> 7]]
 ]
